@@ -94,19 +94,19 @@ func (iter *SetIter) RunOperation(opType op.BinaryOpType, right Object) Object {
 
 func (iter *SetIter) Next(ctx context.Context) (Object, bool) {
 	hashKeys := iter.keys
-	if iter.pos >= int64(len(hashKeys)-1) {
-		iter.current = nil
-		return nil, false
+	for {
+		if iter.pos >= int64(len(hashKeys)-1) {
+			iter.current = nil
+			return nil, false
+		}
+		iter.pos++
+		// An item that was removed since the iteration began is not
+		// produced; the items after it still are
+		if value, ok := iter.set.items[hashKeys[iter.pos]]; ok {
+			iter.current = value
+			return value, true
+		}
 	}
-	iter.pos++
-	key := hashKeys[iter.pos]
-	value, ok := iter.set.items[key]
-	if !ok {
-		iter.current = nil
-		return nil, false
-	}
-	iter.current = value
-	return value, true
 }
 
 func (iter *SetIter) Entry() (IteratorEntry, bool) {
